@@ -7,6 +7,7 @@ props = [json.loads(l) for l in open('/verif/properties.jsonl')]
 plist = '\n'.join(f"  {p['id']}: {p['title']} — {p['statement']}" for p in props)
 AREAS = {
  '5': {},
+ '15': {k: ('any file of the package (bluebell/*.py, bluebell/akn.peg with bluebell/akn.py, bluebell/akn_text.xsl)', 'whatever code the property %s depends on; the change must break property %s specifically (others may break too); prefer something that needs an unusual but legal input' % (k, k)) for k in ['C05', 'C06', 'C08', 'C11']},
  '14': {k: ('any file of the package (bluebell/*.py, bluebell/akn.peg with bluebell/akn.py, bluebell/akn_text.xsl)', 'whatever code the property %s depends on; the change must break property %s specifically (others may break too); prefer a change made of two cooperating edits that each look fine alone' % (k, k)) for k in ['C09', 'C13', 'C16', 'C17']},
  '13': {k: ('any file of the package (bluebell/*.py, bluebell/akn.peg with bluebell/akn.py, bluebell/akn_text.xsl)', 'whatever code the property %s depends on; the change must break property %s specifically (others may break too)' % (k, k)) for k in ['C02', 'C03', 'C15', 'C19']},
  '12': {k: ('any file of the package (bluebell/*.py, bluebell/akn.peg with bluebell/akn.py, bluebell/akn_text.xsl)', 'whatever code the property %s depends on; the change must break property %s specifically (others may break too)' % (k, k)) for k in ['C01', 'C04', 'C07', 'C18']},
